@@ -44,6 +44,7 @@ let parse_state (m : message) (txt : string) : z list * string =
 
 let n_ops = ref 0
 let n_phys = ref 0
+let n_phys_exact = ref 0
 let opkinds : (string, int) Hashtbl.t = Hashtbl.create 16
 let bump k = Hashtbl.replace opkinds k (1 + try Hashtbl.find opkinds k with Not_found -> 0)
 
@@ -86,18 +87,27 @@ let handle_hist (line : string) =
                           let s = List.nth m.msg_signals i in
                           this := raw_set m !this (z_to_nat_int i) (field_of_text s v);
                           nontrivial := true; true
-                      | "SP", [ si; _x ] ->
-                          (* physical setter: the float model lives in the descriptor family (C09); here the
-                             observed value is adopted after checking it is inside the signal's raw range
-                             (the C10 invariant) and that no other field changed *)
+                      | "SP", [ si; x ] ->
+                          (* physical setter: T(FromPhysical(v)). For a signal of the supported class (integer,
+                             2..52 bits, scaling in the class of C09, argument not NaN) the stored value is computed
+                             exactly with the Flocq model (Gen/HistoryPhys.v phys_set_value). Outside that class the
+                             observed value is adopted after checking it against the C10 range invariant. *)
                           incr n_phys;
                           let i = int_of_string ("0x" ^ si) in
                           let s = List.nth m.msg_signals i in
-                          let obs_state, _ = parse_state m (if who = "A" then sa else sb) in
-                          let v = List.nth obs_state i in
-                          if not (in_range s v) then
-                            bad := Some (Printf.sprintf "PFAIL %s || clause=physical setter left raw value %s outside the raw range of signal %d" line (hex_of_z v) i);
-                          this := List.mapi (fun j x -> if j = i then v else x) !this;
+                          let xb = z_of_hex x in
+                          let in_class = phys_okb s xb in
+                          if in_class then begin
+                            incr n_phys_exact;
+                            this := phys_set m !this (z_to_nat_int i) xb
+                          end else begin
+                            let obs_state, _ = parse_state m (if who = "A" then sa else sb) in
+                            let v = List.nth obs_state i in
+                            if not (in_range s v) then
+                              bad := Some (Printf.sprintf "PFAIL %s || clause=physical setter left raw value %s outside the raw range of signal %d" line (hex_of_z v) i);
+                            this := List.mapi (fun j x -> if j = i then v else x) !this
+                          end;
+                          nontrivial := true;
                           true
                       | "C", [] -> this := copy_from m !this !other; nontrivial := true; true
                       | _ -> failwith ("bad op " ^ opt)
@@ -152,5 +162,5 @@ let () =
      done
    with End_of_file -> ());
   let ks = Hashtbl.fold (fun k v acc -> Printf.sprintf "\"%s\":%d" k v :: acc) opkinds [] in
-  Printf.printf "OPS {\"operations\":%d,\"physical_setter_ops\":%d,\"op_kinds\":{%s}}\n" !n_ops !n_phys (String.concat "," (List.sort compare ks));
+  Printf.printf "OPS {\"operations\":%d,\"physical_setter_ops\":%d,\"physical_setter_ops_exact\":%d,\"op_kinds\":{%s}}\n" !n_ops !n_phys !n_phys_exact (String.concat "," (List.sort compare ks));
   print_stats ()
